@@ -17,7 +17,7 @@ import (
 
 func init() {
 	register(&PropDef{
-		ID: "C08", Level: "fault_enumeration", Quick: 1200, Thorough: 120000, QuickCap: 120, PerProc: 400,
+		ID: "C08", Level: "fault_enumeration", Quick: 6000, Thorough: 120000, QuickCap: 120, PerProc: 400,
 		Rule:   "each run = an admin+data program on the disk engine (create/delete/re-create tables, family create/update/drop with GC rules, MutateRow(s), ReadModifyWrite, DropRowRange prefix/all), optionally a second client on another table so that two requests are in flight, and 1-3 crash/restart cycles; the crash lands on a scheduling point drawn from the fault stream (thorough tier: for each program every crash index 0..191 of the first epoch is tried) or is a clean stop; the image is a byte copy of the directory taken while no file operation is in progress; the new server must start and serve the acknowledged state with every in-flight request wholly applied or wholly absent (MutateRows: a prefix of its entries); distinct = trace hash; non-trivial = the crash landed inside a request (not on a request boundary). A sixth of the quick runs (one program slot in 256 of the thorough tier) is the concurrent-administration sub-workload: 2-3 clients create, delete, re-create, change the schema of and write the SAME two tables under the seeded scheduler, every request acknowledged, then a kill between requests or a clean stop; the restarted emulator must serve exactly the state the old one served at that quiescent point",
 		Real:   []string{"bttest.NewServerWithOptions start-up (GetTables, Open), LeveldbDiskStorage (SetTableMeta tmp+rename, Create, DeleteTable, newDiskDb/RemoveAll), leveldbRows, goleveldb journal/manifest/table files on a real file system", "all admin and data handlers"},
 		Stub:   []string{"process kill = directory image at a scheduling point; the dead instance is drained and closed", "os.WriteFile / os.RemoveAll executed one system call at a time through the tagged fs* seams", "gRPC transport (direct calls)"},
